@@ -133,9 +133,34 @@ impl LogicalLineFileFormatter for OptimisingLineFormatter {
         lines_to_reflow.sort_by_key(|line| line.0);
         lines_to_reflow.dedup_by_key(|line| line.0);
 
+        if lines_to_reflow.is_empty() {
+            return;
+        }
+
+        /*
+            The first round removed the spaces in front of every token that started a
+            physical line. The second round can place those tokens in the middle of a
+            line (and others at the start of one), so the spacing is restored before
+            reflowing and removed at the line starts again afterwards.
+        */
+        for token_index in 0..olf.formatted_tokens.len() {
+            let spaces_before = olf.token_lengths[token_index].spaces_before;
+            if let Some(data) = olf.formatted_tokens.get_formatting_data_mut(token_index) {
+                data.spaces_before = spaces_before.try_into().unwrap_or(u16::MAX);
+            }
+        }
+
         for line in lines_to_reflow {
             if let Some(solution) = olf.format_line(line) {
                 olf.reconstruct_solution(&solution, line.1);
+            }
+        }
+
+        for token_index in 0..olf.formatted_tokens.len() {
+            if let Some(data) = olf.formatted_tokens.get_formatting_data_mut(token_index) {
+                if data.newlines_before > 0 {
+                    data.spaces_before = 0;
+                }
             }
         }
     }
